@@ -124,6 +124,17 @@ static void nx_at_state(void)
 		snprintf(b, sizeof(b), "%sj%s", c, c);
 		if (relate("'.' after an intervening motion", a, b) < 0)
 			return;
+		/* keys that did not make a command (a motion that fails, an unset mark, an unpaired %) are not part of the change */
+		{
+			static const char *fails[] = {"fd", "'z", "%", ";", "Fq", "`y"};
+			int q;
+			for (q = 0; q < 6; q++) {
+				snprintf(a, sizeof(a), "%s%sj0.", fails[q], c);
+				snprintf(b, sizeof(b), "%s%sj0%s", fails[q], c, c);
+				if (relate("'.' after a change that was typed after a failed motion", a, b) < 0)
+					return;
+			}
+		}
 	}
 	/* macros: executing a register equals typing its contents */
 	for (i = 0; i < NMAC; i++) {
